@@ -200,10 +200,10 @@ theorem C05_RMB_literal {x : Str} (hx : IsDecLit x) (hv : parseBase 10 x < 65536
 
 /-! ### FCC -/
 
-/-- **C05, FCC** on the operand level: the character codes, provided every code has exactly two hex
-digits (16 ≤ code < 256) -/
+/-- **C05, FCC** on the operand level: the character codes, for every string of 8-bit characters
+(after fix dfad397 the lower bound `16 ≤ code` is no longer needed) -/
 theorem C05_FCC {o : Operand} {row : InstrRow} {s : Str}
-    (hm : row.mnemonic = "FCC") (hv : o.value = .str s) (hs : ∀ c ∈ s, 16 ≤ c.toNat ∧ c.toNat < 256) :
+    (hm : row.mnemonic = "FCC") (hv : o.value = .str s) (hs : ∀ c ∈ s, c.toNat < 256) :
     PseudoEmits o row (s.map Char.toNat) := by
   have hi : o.value.int? = some 0 := by rw [hv]; rfl
   have hb : o.value.byteLen? = some s.length := by rw [hv]; exact byteLen_str s hs
@@ -211,7 +211,7 @@ theorem C05_FCC {o : Operand} {row : InstrRow} {s : Str}
   rw [hv]; exact emitValue_str s hs
 
 /-- **C05, `FCC dtextd`** from the operand text, any delimiter character `d` -/
-theorem C05_FCC_text (d : Char) (body : Str) (hs : ∀ c ∈ body, 16 ≤ c.toNat ∧ c.toNat < 256) :
+theorem C05_FCC_text (d : Char) (body : Str) (hs : ∀ c ∈ body, c.toNat < 256) :
     LineEmits (d :: (body ++ [d])) fccRow (body.map Char.toNat) :=
   lineEmits_of (createOperand_fcc (row := fccRow) rfl rfl rfl rfl rfl rfl d body) rfl (C05_FCC rfl rfl hs)
 
@@ -407,31 +407,15 @@ theorem C05_finding_list_empty :
     lineResult (str "1,,3") fcbRow = some (2, some [1, 3]) ∧ lineResult (str "1,") fcbRow = some (1, some [1]) := by
   decide +kernel
 
-/-- FINDING (FCC, character code below 16): the code is printed with ONE hex digit, the string of digits
-is misaligned and odd; for `FCC "A<TAB>B"` the size is 2 and `get_binary_array` raises IndexError -/
-theorem C05_finding_FCC_tab :
-    lineResult ['"', 'A', '\t', 'B', '"'] fccRow = some (2, none) ∧
-    lineResult ['"', '\t', '"'] fccRow = some (0, none) := by decide +kernel
+-- `C05_finding_FCC_tab`, `C05_finding_FCC_tab_operand`, `C05_finding_FCC_two_tabs` (a character code below 16
+-- was printed with ONE hex digit): repaired by fix dfad397.  What holds now:
 
-/-- the same on the operand level: no byte list at all is emitted for the string consisting of one TAB -/
-theorem C05_finding_FCC_tab_operand (o : Operand) (hv : o.value = .str ['\t']) :
-    ¬ ∃ bytes, PseudoEmits o fccRow bytes := by
-  rintro ⟨bytes, p, hp, hs, _⟩
-  have hi : o.value.int? = some 0 := by rw [hv]; rfl
-  have hb : o.value.byteLen? = some 0 := by rw [hv]; rfl
-  rw [translatePseudo_FCC rfl hi hb] at hp
-  injection hp with hp
-  subst hp
-  have := hs { (default : Stmt) with pkg := { additional := o.value, size := 0, maxSize := 0 } } rfl
-  rw [hv] at this
-  have hn : stmtBytes { (default : Stmt) with pkg := { additional := .str ['\t'], size := 0, maxSize := 0 } } = none := by
-    decide +kernel
-  rw [hn] at this
-  cases this
-
-/-- FINDING: with two TABs the digits pair up again and ONE wrong byte `$99` comes out for two characters -/
-theorem C05_finding_FCC_two_tabs : lineResult ['"', '\t', '\t', '"'] fccRow = some (1, some [0x99]) := by
-  decide +kernel
+/-- REPAIRED (fix dfad397; formerly the findings `C05_finding_FCC_tab*`): a TAB inside an FCC string is the
+byte `$09` like any other character -/
+theorem C05_fixed_FCC_tab :
+    lineResult ['"', 'A', '\t', 'B', '"'] fccRow = some (3, some [0x41, 0x09, 0x42]) ∧
+    lineResult ['"', '\t', '"'] fccRow = some (1, some [0x09]) ∧
+    lineResult ['"', '\t', '\t', '"'] fccRow = some (2, some [0x09, 0x09]) := by decide +kernel
 
 /-- FINDING: a one-character FCC operand is its own closing delimiter: `FCC A` is the empty string -/
 theorem C05_finding_FCC_single_char : lineResult (str "A") fccRow = some (0, some []) := by decide +kernel
@@ -478,8 +462,8 @@ def C05_Statement : Prop :=
     row.mnemonic ∈ ["EQU", "ORG", "SETDP", "NAM", "END", "INCLUDE", "SET"] → PseudoEmits o row [])
 
 /-- **C05 (partial)**: the statement restricted to non-negative values that fit (FCB below 256, FDB below
-65536, any RMB count), values of 65536 and more (refused), FCC strings whose character codes have two hex
-digits, and everything else unrestricted.  The restrictions are exactly where the findings are. -/
+65536, any RMB count), values of 65536 and more (refused), and everything else unrestricted (the FCC clause
+is the full one since fix dfad397).  The restrictions are exactly where the findings are. -/
 theorem C05_partial :
   (∀ (o : Operand) (row : InstrRow) (i : Nat) (h : Option Nat) (m : Mode) (neg : Bool),
     row.mnemonic = "FCB" → o.value = .numeric i h m neg → (neg = false ∧ i < 256) ∨ 65536 ≤ i →
@@ -496,7 +480,7 @@ theorem C05_partial :
     row.mnemonic = "RMB" → o.value = .numeric n h m neg → neg = false ∨ n = 0 →
       Meant o row (if neg = false ∨ n = 0 then some (List.replicate n 0) else none)) ∧
   (∀ (o : Operand) (row : InstrRow) (s : Str),
-    row.mnemonic = "FCC" → o.value = .str s → (∀ c ∈ s, 16 ≤ c.toNat ∧ c.toNat < 256) →
+    row.mnemonic = "FCC" → o.value = .str s → (∀ c ∈ s, c.toNat < 256) →
       PseudoEmits o row (s.map Char.toNat)) ∧
   (∀ (o : Operand) (row : InstrRow), o.value ≠ .pyNone →
     row.mnemonic ∈ ["EQU", "ORG", "SETDP", "NAM", "END", "INCLUDE", "SET"] → PseudoEmits o row []) := by
@@ -556,11 +540,8 @@ theorem C05_not_full : ¬ C05_Statement := by
   have := Emits.unique h1 h2
   revert this; decide
 
-/-- the FCC clause fails on its own: the one-TAB string is a string of 8-bit characters -/
-theorem C05_not_full_FCC : ¬ C05_Statement := by
-  intro h
-  have h6 := h.2.2.2.2.2.1 { kind := .pseudo, text := [], value := .str ['\t'] } fccRow ['\t'] rfl rfl (by decide)
-  exact C05_finding_FCC_tab_operand _ rfl ⟨_, h6⟩
+-- `C05_not_full_FCC` (the FCC clause failed on the one-TAB string): repaired by fix dfad397; the FCC clause of
+-- `C05_Statement` is now proved in full in `C05_partial`.
 
 /-- the RMB clause fails on its own: `RMB -1` is not refused -/
 theorem C05_not_full_RMB : ¬ C05_Statement := by
